@@ -836,3 +836,237 @@ def x_go_admin():
 
 
 EXTRACTORS = [("ral_governance", x_ral_governance), ("go_payloads", x_go_payloads), ("go_admin", x_go_admin)]
+
+
+# ======================================================================================================= X6: the glue between the pieces
+# go_inject_glue : the loop of InjectGovernanceVAA (which slot of `digests` a message's digest goes to, one send on injectC per
+#                  message, of the converted VAA itself, the digest taken from that same VAA), handleInjection (signs
+#                  v.SigningMsg(), hands the UNCHANGED v to broadcastSignature with a nil tx hash) and broadcastSignature
+#                  (keeps v as ourVAA, no field written).
+# ral_gov_glue   : how the Ralph functions hand values to each other POSITIONALLY (the translator of ral_governance binds the
+#                  values an envelope parser returns by NAME): return list of parseAndVerifyVAA vs the tuple-let of
+#                  parseAndVerifyGovernanceVAAGeneric, the wrappers parseAndVerifyGovernanceVAA of both contract files (arguments
+#                  handed to the generic check, receivedSequence update, return list) vs the tuple-lets of the entry points, the
+#                  governance guardian-set-index test and the guardian-set size test of parseAndVerifyVAA.
+
+def _stmt_pos(body, pat, what):
+    ms = list(re.finditer(pat, body))
+    if len(ms) != 1:
+        raise Broken("%s: expected exactly one `%s`, found %d" % (what, pat, len(ms)))
+    return ms[0]
+
+
+def x_go_inject_glue():
+    src = rd("node/cmd/guardiand/adminserver.go")
+    ib = go_func_body(src, r'^func \(s \*nodePrivilegedService\) InjectGovernanceVAA\(', "InjectGovernanceVAA")
+    ib = re.sub(r'//[^\n]*', '', ib)
+    what = "InjectGovernanceVAA"
+    _stmt_pos(ib, r'digests := make\(\[\]\[\]byte, len\(req\.Messages\)\)', what)
+    loop = _stmt_pos(ib, r'for (\w+), message := range req\.Messages \{', what)
+    iv = loop.group(1)
+    errchk = _stmt_pos(ib, r'if err != nil \{\s*return nil, status\.Error\(codes\.InvalidArgument, err\.Error\(\)\)\s*\}', what)
+    dg = _stmt_pos(ib, r'digest := v\.SigningMsg\(\)', what)
+    send = _stmt_pos(ib, r's\.injectC <- (\w+)', what)
+    if send.group(1) != "v":
+        raise Broken("%s: sends %s on injectC (expected the converted VAA v)" % (what, send.group(1)))
+    store = _stmt_pos(ib, r'digests\[([^\]]+)\] = ([\w\.\(\)]+)', what)
+    if store.group(2) != "digest.Bytes()":
+        raise Broken("%s: digests[..] = %s (expected digest.Bytes())" % (what, store.group(2)))
+    ret = _stmt_pos(ib, r'return &nodev1\.InjectGovernanceVAAResponse\{Digests: (\w+)\}, nil', what)
+    if ret.group(1) != "digests":
+        raise Broken("%s: response carries %s" % (what, ret.group(1)))
+    if not (loop.start() < errchk.start() < dg.start() and errchk.start() < send.start() < ret.start() and dg.start() < store.start() < ret.start()):
+        raise Broken("%s: order of error test / digest / send / store / return changed" % what)
+    # nothing else touches digests or v between the conversion and the return
+    others = [m.group(0) for m in re.finditer(r'\bdigests\b[^\n]*', ib)]
+    if len(others) != 3:
+        raise Broken("%s: `digests` is used in %d statements (expected make / store / return): %s" % (what, len(others), others))
+    tail = ib[errchk.end():ret.start()]
+    if re.search(r'\bv\.\w+\s*=[^=]|\bv\s*=[^=]|\*v\s*=', tail):
+        raise Broken("%s: the converted VAA is modified before it is sent" % what)
+    idx = re.sub(r'\s+', '', store.group(1))
+    if idx == iv:
+        slot = "i"
+    elif idx in ("len(req.Messages)-1-%s" % iv, "len(digests)-1-%s" % iv, "len(req.Messages)-%s-1" % iv, "len(digests)-%s-1" % iv):
+        slot = "(n - 1 - i)%nat"
+    else:
+        raise Broken("%s: digests[%s]: index expression not understood" % (what, store.group(1)))
+    out = ["(* InjectGovernanceVAA: digests := make([][]byte, len(req.Messages)); for %s, message := range req.Messages { v, err = <conversion>; "
+           "if err != nil { return }; digest := v.SigningMsg(); s.injectC <- v; digests[%s] = digest.Bytes() }; return {Digests: digests} *)\n" % (iv, store.group(1)),
+           "Definition go_inj_slot (i n : nat) : nat := %s.\n" % slot,
+           "Definition go_inj_send_before_store : bool := %s.\n" % ("true" if send.start() < store.start() else "false")]
+    info = {"slot": store.group(1), "index_var": iv}
+    # handleInjection / broadcastSignature
+    hs = re.sub(r'//[^\n]*', '', rd("node/pkg/processor/injection.go"))
+    hb = go_func_body(hs, r'^func \(p \*Processor\) handleInjection\(ctx context\.Context, v \*vaa\.VAA\) \{', "handleInjection")
+    d1 = _stmt_pos(hb, r'digest := v\.SigningMsg\(\)', "handleInjection")
+    s1 = _stmt_pos(hb, r's, err := p\.guardianSigner\.Sign\(digest\.Bytes\(\)\)', "handleInjection")
+    b1 = _stmt_pos(hb, r'p\.broadcastSignature\((\w+), (\w+), (\w+)\)', "handleInjection")
+    if b1.groups() != ("v", "s", "nil") or not d1.start() < s1.start() < b1.start():
+        raise Broken("handleInjection: broadcastSignature%s / statement order" % (b1.groups(),))
+    assigns = sorted(set(re.findall(r'\bv\.(\w+)\s*=[^=]', hb)))
+    if re.search(r'\bv\s*=[^=]|\*v\s*=', hb):
+        assigns.append("*v")
+    bs = re.sub(r'//[^\n]*', '', rd("node/pkg/processor/broadcast.go"))
+    bb = go_func_body(bs, r'^func \(p \*Processor\) broadcastSignature\(v \*vaa\.VAA, signature \[\]byte, txhash \[\]byte\) \{', "broadcastSignature")
+    if not re.search(r'\.ourVAA = v\b', bb) or not re.search(r'digest := v\.SigningMsg\(\)', bb):
+        raise Broken("broadcastSignature: `ourVAA = v` / `digest := v.SigningMsg()` not found")
+    assigns += sorted("broadcastSignature:" + a for a in set(re.findall(r'\bv\.(\w+)\s*=[^=]', bb)))
+    out.append("(* handleInjection: digest := v.SigningMsg(); s := Sign(digest.Bytes()); broadcastSignature(v, s, nil); fields of v written on the way: *)\n")
+    out.append("Definition go_injection_writes : list String.string := [%s].\n" % "; ".join('"%s"%%string' % a for a in assigns))
+    info["injection_writes"] = assigns
+    return "".join(out), info
+
+
+def _ral_tuple_let(body_src, callee_re, what):
+    m = re.search(r'let \(([^)]*)\) = ((?:\w+\.)?%s)\(([^)]*)\)' % callee_re, body_src)
+    if not m:
+        raise Broken("%s: tuple-let from %s not found" % (what, callee_re))
+    return [x.strip() for x in m.group(1).split(",")], [x.strip() for x in m.group(3).split(",")], m
+
+
+def _ral_fn_text(src, name, what):
+    m = re.search(r'\bfn %s\s*\(([^)]*)\)\s*->\s*(\([^)]*\)|\w+)\s*\{' % re.escape(name), src)
+    if not m:
+        raise Broken("%s: fn %s not found" % (what, name))
+    d, e = 0, m.end() - 1
+    while True:
+        if e >= len(src):
+            raise Broken("%s: fn %s: unbalanced braces" % (what, name))
+        d += {'{': 1, '}': -1}.get(src[e], 0)
+        e += 1
+        if d == 0:
+            break
+    params = [x.split(":")[0].strip() for x in m.group(1).split(",") if x.strip()]
+    return params, src[m.end():e - 1]
+
+
+def gname(text):
+    return "v_" + re.sub(r'\W+', '_', text).strip('_')
+
+
+def x_ral_gov_glue():
+    srcs = {k: strip_comments(rd(p)) for k, p in RAL_FILES.items()}
+    _, ginfo = x_ral_governance()
+    fparams = {f: d["params"] for f, d in ginfo["functions"].items()}       # Ralph-side names, in the order of the generated Gallina parameters
+    gov = srcs["gov"]
+    out = ["Module RalGlue.\nImport Coq.Strings.String WH.lib.Ralph RalGov.\n"]
+    info = {}
+    # ---- parseAndVerifyVAA
+    pv_params, pv = _ral_fn_text(gov, "parseAndVerifyVAA", "governance.ral")
+    if pv_params != ["data", "isGovernanceVAA"]:
+        raise Broken("parseAndVerifyVAA parameters are %s" % pv_params)
+    m = re.search(r'if \(isGovernanceVAA\) \{\s*assert!\(guardianSetIndex (==|!=|<=|>=|<|>) guardianSetIndexes\[1\], ErrorCodes\.\w+\)\s*\}', pv)
+    if not m:
+        raise Broken("parseAndVerifyVAA: `if (isGovernanceVAA) { assert!(guardianSetIndex <op> guardianSetIndexes[1], ..) }` not found")
+    out.append("(* parseAndVerifyVAA: if (isGovernanceVAA) { assert!(guardianSetIndex %s guardianSetIndexes[1], ..) } *)\n"
+               "Definition ral_gov_index_check (guardianSetIndex guardianSetIndexes_1 : rval) : rv := (%s (r_var guardianSetIndex) (r_var guardianSetIndexes_1)).\n"
+               % (m.group(1), BINOPS[m.group(1)]))
+    if not re.search(r'let guardianSetIndex = u256From4Byte!\(byteVecSlice!\(data, 1, 5\)\)', pv):
+        raise Broken("parseAndVerifyVAA: guardianSetIndex is not read from data[1:5]")
+    if not re.search(r'let guardians = getGuardiansInfo\(guardianSetIndex\)', pv):
+        raise Broken("parseAndVerifyVAA: `let guardians = getGuardiansInfo(guardianSetIndex)` not found")
+    _, gi = _ral_fn_text(gov, "getGuardiansInfo", "governance.ral")
+    if not re.match(r'\s*if \(guardianSetIndex == guardianSetIndexes\[1\]\) \{\s*return guardianSets\[1\]\s*\}', gi):
+        raise Broken("getGuardiansInfo: does not start with `if (guardianSetIndex == guardianSetIndexes[1]) { return guardianSets[1] }`")
+    m = re.search(r'let guardianSize = (u256From(\d+)Byte!\(byteVecSlice!\(guardians, (\d+), (\d+)\)\))\s*\n', pv)
+    m2 = re.search(r'assert!\(guardianSize (!=|>) 0, ErrorCodes\.\w+\)', pv)
+    if not m or not m2:
+        raise Broken("parseAndVerifyVAA: guardianSize / its non-zero assertion not found")
+    out.append("(* let guardianSize = %s ; assert!(guardianSize %s 0, ..); guardians = guardianSets[1] when the index is the current one *)\n"
+               "Definition ral_guardian_size (guardians : rval) : rv := (r_u256from %s (r_slice (r_var guardians) (r_num %s) (r_num %s))).\n"
+               "Definition ral_guardian_size_check (guardianSize : rval) : rv := (%s (r_var guardianSize) (r_num 0)).\n"
+               % (m.group(1), m2.group(1), m.group(2), m.group(3), m.group(4), BINOPS[m2.group(1)]))
+    m = re.search(r'let quorumSize = [^\n]*guardianSize[^\n]*\n\s*assert!\(quorumSize (<=|<|>=|>) signatureSize', pv)
+    if not m:
+        raise Broken("parseAndVerifyVAA: quorumSize is not computed from guardianSize / not compared with signatureSize")
+    if not re.search(r'let signatureSize = u256From1Byte!\(byteVecSlice!\(data, 5, 6\)\)', pv):
+        raise Broken("parseAndVerifyVAA: signatureSize is not read from data[5:6]")
+    m = re.search(r'return ([\w, ]+)\s*$', pv.strip())
+    if not m:
+        raise Broken("parseAndVerifyVAA: final return not found")
+    rets = [x.strip() for x in m.group(1).split(",")]
+    if sorted(rets) != sorted(["emitterChainId", "targetChainId", "emitterAddress", "sequence", "payload"]):
+        raise Broken("parseAndVerifyVAA returns %s" % rets)
+    for r in rets:
+        if not re.search(r'let %s = [^\n]*byteVecSlice!\(body, ' % r, pv):
+            raise Broken("parseAndVerifyVAA: %s is not a slice of body" % r)
+    out.append("(* parseAndVerifyVAA: return %s *)\nDefinition ral_vaa_returns (%s : rval) : list rval := [%s].\n"
+               % (", ".join(rets), " ".join(["emitterChainId", "targetChainId", "emitterAddress", "sequence", "payload"]), "; ".join(rets)))
+    info["vaa_returns"] = rets
+    # ---- parseAndVerifyGovernanceVAAGeneric
+    g_params, gb = _ral_fn_text(gov, "parseAndVerifyGovernanceVAAGeneric", "governance.ral")
+    names, args, _ = _ral_tuple_let(gb, "parseAndVerifyVAA", "parseAndVerifyGovernanceVAAGeneric")
+    if args != [g_params[0], "true"]:
+        raise Broken("parseAndVerifyGovernanceVAAGeneric calls parseAndVerifyVAA(%s)" % ", ".join(args))
+    gp = fparams["parseAndVerifyGovernanceVAAGeneric"]
+    free = [p for p in gp if p not in names]
+    if len(names) != len(rets) or any(n not in gp for n in names):
+        raise Broken("parseAndVerifyGovernanceVAAGeneric binds %s" % names)
+    out.append("(* parseAndVerifyGovernanceVAAGeneric(%s): let (%s) = parseAndVerifyVAA(%s) *)\n"
+               "Definition ral_generic_on (rets : list rval) %s: option rres :=\n  match rets with [%s] => ral_parseAndVerifyGovernanceVAAGeneric %s | _ => None end.\n"
+               % (", ".join(g_params), ", ".join(names), ", ".join(args), "".join("(%s : rval) " % gname(p) for p in free),
+                  "; ".join(gname(n) for n in names), " ".join(gname(p) for p in gp)))
+    info["generic_binds"] = names
+    m = re.search(r'return ([\w, ]+)\s*$', gb.strip())
+    g_rets = [x.strip() for x in m.group(1).split(",")] if m else None
+    if g_rets is None:
+        raise Broken("parseAndVerifyGovernanceVAAGeneric: final return not found")
+    # ---- the wrappers parseAndVerifyGovernanceVAA of the two contract files
+    for k in ("gov", "tb"):
+        w_params, wb = _ral_fn_text(srcs[k], "parseAndVerifyGovernanceVAA", RAL_FILES[k])
+        if len(w_params) != 2:
+            raise Broken("%s: parseAndVerifyGovernanceVAA parameters are %s" % (RAL_FILES[k], w_params))
+        wn, wa, _ = _ral_tuple_let(wb, "parseAndVerifyGovernanceVAAGeneric", RAL_FILES[k] + " parseAndVerifyGovernanceVAA")
+        if len(wa) != len(g_params) or wa[0] != w_params[0] or len(wn) != len(g_rets):
+            raise Broken("%s: parseAndVerifyGovernanceVAA calls the generic check with (%s) and binds (%s)" % (RAL_FILES[k], ", ".join(wa), ", ".join(wn)))
+        consts = ral_consts(srcs[k], RAL_FILES[k])
+
+        def arg(a):
+            if a in consts:
+                return "c_%s_%s" % (k, a)
+            if a == w_params[1]:
+                return "(r_var v_action)"
+            if a == "receivedSequence":
+                return "(r_var v_receivedSequence)"
+            raise Broken("%s: parseAndVerifyGovernanceVAA hands `%s` to the generic check" % (RAL_FILES[k], a))
+        byname = dict(zip(g_params[1:], wa[1:]))
+        if sorted(byname) != sorted(["targetSequence", "coreModule", "action"]):
+            raise Broken("parseAndVerifyGovernanceVAAGeneric parameters are %s" % g_params)
+        ms = re.search(r'receivedSequence = (\w+) \+ (\d+)\s*\n', wb)
+        mr = re.search(r'return ([\w, ]+)\s*$', wb.strip())
+        if not ms or ms.group(1) not in wn or not mr:
+            raise Broken("%s: parseAndVerifyGovernanceVAA: `receivedSequence = <bound name> + n` / return not found" % RAL_FILES[k])
+        wr = [x.strip() for x in mr.group(1).split(",")]
+        if any(x not in wn for x in wr):
+            raise Broken("%s: parseAndVerifyGovernanceVAA returns %s" % (RAL_FILES[k], wr))
+        out.append("(* %s parseAndVerifyGovernanceVAA(%s): let (%s) = parseAndVerifyGovernanceVAAGeneric(%s); receivedSequence = %s + %s; return %s *)\n"
+                   "Definition ral_wrapper_%s (generic : rv -> rv -> rv -> option rres) (v_receivedSequence v_action : rval) : option (list rval * rv) :=\n"
+                   "  match generic %s %s %s with Some ([%s], _) => Some ([%s], r_add (r_var %s) (r_num %s)) | _ => None end.\n"
+                   % (RAL_FILES[k].split("/")[-1], ", ".join(w_params), ", ".join(wn), ", ".join(wa), ms.group(1), ms.group(2), ", ".join(wr), k,
+                      arg(byname["targetSequence"]), arg(byname["coreModule"]), arg(byname["action"]),
+                      "; ".join(gname(n) for n in wn), "; ".join(gname(n) for n in wr), gname(ms.group(1)), ms.group(2)))
+        info["wrapper_" + k] = {"binds": wn, "args": wa, "returns": wr}
+        # ---- entry points of this file
+        for fname, fk, _ in RAL_FUNCS:
+            if fk != k or fname in ("parseAndVerifyGovernanceVAAGeneric",):
+                continue
+            e_params, eb = _ral_fn_text(srcs[k], fname, RAL_FILES[k])
+            en, ea, _ = _ral_tuple_let(eb, "parseAndVerifyGovernanceVAA", fname)
+            if len(en) != len(wr) or len(ea) != 2 or ea[0] != e_params[0] or not ea[1].startswith("ActionId."):
+                raise Broken("%s: let (%s) = parseAndVerifyGovernanceVAA(%s)" % (fname, ", ".join(en), ", ".join(ea)))
+            fp = fparams[fname]
+            extra = [p for p in fp if p not in en]
+            if any(n not in fp for n in en):
+                raise Broken("%s binds %s from the envelope parser but uses %s" % (fname, en, fp))
+            out.append("(* %s: let (%s) = parseAndVerifyGovernanceVAA(%s) *)\n"
+                       "Definition ral_entry_%s (wrapper : rval -> option (list rval * rv)) %s: option (rres * rv) :=\n"
+                       "  match ral_action_%s with Some a => match wrapper a with Some ([%s], s') => match ral_%s %s with Some r => Some (r, s') | None => None end | _ => None end | None => None end.\n"
+                       % (fname, ", ".join(en), ", ".join(ea), fname, "".join("(%s : rval) " % gname(p) for p in extra), fname,
+                          "; ".join(gname(n) for n in en), fname, " ".join(gname(p) for p in fp)))
+            info.setdefault("entries", {})[fname] = {"binds": en, "state": extra}
+    out.append("End RalGlue.\n")
+    return "".join(out), info
+
+
+EXTRACTORS += [("go_inject_glue", x_go_inject_glue), ("ral_gov_glue", x_ral_gov_glue)]
